@@ -82,8 +82,7 @@ TAdd ==
           /\ UNCHANGED <<costs, used, maxCost, slack>>
           /\ ev' = [phase |-> "done", k |-> Ev.k, cost |-> Ev.cost, added |-> FALSE, victims |-> <<>>, path |-> "oversize"]
        \/ /\ Ev.path = "present" /\ Ev.cost <= maxCost /\ costs[Ev.k] # Nil /\ ~Ev.added /\ ~Ev.hasv /\ Len(Ev.rounds) = 0
-          /\ costs' = [costs EXCEPT ![Ev.k] = Ev.cost] /\ used' = used + Ev.cost - costs[Ev.k]
-          /\ slack' = Max2(0, slack + (Ev.cost - costs[Ev.k])) /\ UNCHANGED maxCost
+          /\ UNCHANGED <<costs, used, slack, maxCost>>
           /\ ev' = [phase |-> "done", k |-> Ev.k, cost |-> Ev.cost, added |-> FALSE, victims |-> <<>>, path |-> "present"]
        \/ /\ Ev.path = "room" /\ Ev.cost <= maxCost /\ costs[Ev.k] = Nil /\ Room(costs, used, maxCost, Ev.cost) >= 0
           /\ Ev.added /\ ~Ev.hasv /\ Len(Ev.rounds) = 0
